@@ -181,7 +181,11 @@ func packageClaims(f *protogen.File, allOpaque bool) map[string][]string {
 				add("Default_"+n+"_"+fd.GoName, "default of "+string(fd.Desc.FullName()))
 			}
 			if fd.Oneof != nil && !fd.Oneof.Desc.IsSynthetic() {
-				add(fd.GoIdent.GoName, "oneof wrapper type of "+string(fd.Desc.FullName()))
+				w := fd.GoIdent.GoName
+				if m.APILevel == gofeaturespb.GoFeatures_API_OPAQUE || allOpaque {
+					w = unexport(w) // opaque messages keep their wrapper types unexported
+				}
+				add(w, "oneof wrapper type of "+string(fd.Desc.FullName()))
 				add(n+"_"+fd.GoName+"_case", "case constant of "+string(fd.Desc.FullName()))
 			}
 		}
@@ -316,6 +320,13 @@ func explain(g *generated, level string, i int, es []typeError, models map[int]m
 	return ids, ""
 }
 
+func unexport(s string) string {
+	if s == "" {
+		return s
+	}
+	return strings.ToLower(s[:1]) + s[1:]
+}
+
 // attributePackage: package-level clashes with a registered root cause.
 func attributePackage(k clash, ms map[string]*nameModel) string {
 	if k.A == "type" && k.B == "type" && strings.HasSuffix(k.Name, "_") {
@@ -325,11 +336,11 @@ func attributePackage(k clash, ms map[string]*nameModel) string {
 		for _, tn := range names {
 			n := 0
 			for _, e := range ms[tn].ents {
-				if e.member && e.wrap == k.Name {
+				if e.member && (e.wrap == k.Name || unexport(e.wrap) == k.Name) {
 					n++
 				}
 			}
-			if n >= 1 && strings.HasPrefix(k.Name, tn+"_") {
+			if n >= 1 && (strings.HasPrefix(k.Name, tn+"_") || strings.HasPrefix(k.Name, unexport(tn)+"_")) {
 				return kfWrapperTypes
 			}
 		}
@@ -494,6 +505,6 @@ func TestGenerate(t *testing.T) {
 			return err == nil && len(schema.Constructs(files)) >= 3
 		},
 		Classes: genClasses,
-		Quick:   400, Thorough: 1500,
+		Quick:   400, Thorough: 1000,
 	})
 }
